@@ -267,6 +267,23 @@ func C17(tier rt.Tier) int {
 									violate("all", fmt.Sprintf("%s: GetAllMissingNodes = %s, %v; absent nodes reachable through present ones: %s", desc, hexSet(gotSet), err, hexSet(want)), replay)
 									return
 								}
+								// 1b. a full iteration (handler tolerating absent nodes) records every absent node it runs into
+								t2 = util.NewMerklePatriciaTrie(db, util.Sequence(tver), root, statecache.NewEmpty())
+								seenAbsent := map[string]bool{}
+								_ = t2.Iterate(context.Background(), func(ctx context.Context, path util.Path, key util.Key, node util.Node) error {
+									if node == nil {
+										seenAbsent[string(key)] = true
+									}
+									return nil
+								}, util.NodeTypeLeafNode|util.NodeTypeFullNode|util.NodeTypeExtensionNode|util.NodeTypeValueNode)
+								recorded := map[string]bool{}
+								for _, k := range t2.GetMissingNodeKeys() {
+									recorded[string(k)] = true
+								}
+								if !sameSet(seenAbsent, want) || !sameSet(recorded, want) {
+									violate("iterate-missing", fmt.Sprintf("%s: a full Iterate reported absent nodes %s to its handler and recorded %s in GetMissingNodeKeys; absent nodes reachable through present ones: %s", desc, hexSet(seenAbsent), hexSet(recorded), hexSet(want)), replay)
+									return
+								}
 								// 2. lookups
 								t2 = util.NewMerklePatriciaTrie(db, util.Sequence(tver), root, statecache.NewEmpty())
 								for _, p := range paths {
@@ -344,7 +361,7 @@ func C17(tier rt.Tier) int {
 	rep.Set("distinct_nontrivial", int(cases))
 	rep.Set("lookups_judged", int(lookups))
 	rep.Set("repairs_judged", int(repairs))
-	rep.Set("rule", fmt.Sprintf("every content of <= %d of the paths %q (prefix pairs, interior values, prefix-free 4-char paths) x EVERY subset of its reachable non-root nodes removed from the store (all subsets up to 2^9, else all of size <= 3) x trie version equal to / different from the nodes' origin x every order of the donor store's iteration (all permutations up to %d nodes, rotations+reversals above). Oracle: HasMissingNodes <=> some node absent; GetAllMissingNodes == absent nodes whose ancestors are all present; a lookup that crosses an absent node (per the independent canonical trie) returns an error other than 'value not present', all other lookups answer per model; after MergeDB: no missing node, full content, same root, donor node objects unchanged; 'states' = contents, 'transitions' = (content, removal subset, version, order) cases", maxKeys, paths, permCap))
+	rep.Set("rule", fmt.Sprintf("every content of <= %d of the paths %q (prefix pairs, interior values, prefix-free 4-char paths) x EVERY subset of its reachable non-root nodes removed from the store (all subsets up to 2^9, else all of size <= 3) x trie version equal to / different from the nodes' origin x every order of the donor store's iteration (all permutations up to %d nodes, rotations+reversals above). Oracle: HasMissingNodes <=> some node absent; GetAllMissingNodes, and the keys a full tolerant Iterate reports to its handler and records in GetMissingNodeKeys, == absent nodes whose ancestors are all present; a lookup that crosses an absent node (per the independent canonical trie) returns an error other than 'value not present', all other lookups answer per model; after MergeDB: no missing node, full content, same root, donor node objects unchanged; 'states' = contents, 'transitions' = (content, removal subset, version, order) cases", maxKeys, paths, permCap))
 	rep.Sample(map[string]any{"content": []string{"aa", "ab", "0a1b"}, "removed": "second-level branch", "trie_version": 5, "order": []int{0}})
 	return rep.Finish()
 }
